@@ -121,12 +121,19 @@ def section_aware_gate():
     return bad
 
 
-def _vo_digest():
+def _vo_digest(coq=None):
+    """SHA-256 over the compiled files coqchk looks at: the twenty Props modules and everything they depend on
+    (Model/Wire.v, Extract.v and Lemmas/NoZeroCex.v are outside every cone)"""
     import hashlib
+    coq = coq or COQ
+    files = []
+    for i in range(1, 21):
+        cone(os.path.join(COQ, "Props", "C%02d.v" % i), files)
     h = hashlib.sha256()
-    for f in sorted(glob.glob(os.path.join(COQ, "*", "*.vo"))):
+    for f in sorted(set(files)):
+        vo = os.path.join(coq, os.path.relpath(f, COQ))[:-2] + ".vo"
         h.update(os.path.relpath(f, COQ).encode())
-        h.update(hashlib.sha256(open(f, "rb").read()).digest())
+        h.update(hashlib.sha256(open(vo, "rb").read()).digest() if os.path.exists(vo) else b"missing")
     return h.hexdigest()
 
 
